@@ -21,7 +21,7 @@ THEOREMS = [
     "Typedpy.C16.stub_method_text_roundtrip",
     "Typedpy.C16.stub_init_dupfree_iff",
     "Typedpy.C16.stub_helper_dupfree_iff",
-    "Typedpy.C16.name_clash_counterexample",
+    "Typedpy.C16.fixed_name_clash_example", "Typedpy.C16.stub_methods_dupfree",
     "Typedpy.C16.stub_text_example",
     "Typedpy.C16.parse_rejects_examples",
     "Typedpy.C16.type_info_wf", "Typedpy.C16.type_info_example",
@@ -310,6 +310,9 @@ def judge(case, impl, model):
             if not ok_shape:
                 fails.append((f"helper-shape:{mname}", f"{name}: {h}"))
             hn = [n for n, _ in fields]
+            rt_all = rt_names
+            if hk != "shallowClone":    # since the repair of parameter-name-clash: what the fixed parameters shadow is left out
+                rt_names = rt_all - {"source_object", "ignore_props"}
             if set(hn) != rt_names and dc is not None and not dc["namesCovered"] and ti in nontree:
                 fails.append(("names-mismatch:constant-shadowed-in-diamond",
                               f"{name}.{mname}: field keywords {sorted(hn)} != inspect.signature names {sorted(rt_names)}"))
@@ -319,6 +322,7 @@ def judge(case, impl, model):
             if not all(d for _, d in fields):
                 fails.append((f"helper-default-missing:{mname}",
                               f"{name}: {[n for n, d in fields if not d]} have no default"))
+            rt_names = rt_all
             if admits is not None and h["kw"] != admits and case["apd"] != case["dflt"] and not mc.get("addlDeclared", True):
                 pass
             elif admits is not None and h["kw"] != admits:
